@@ -1,0 +1,21 @@
+package server
+
+import (
+	"errors"
+	"math"
+	"strconv"
+)
+
+// parseFiniteFloat parses a coordinate, distance or bearing. NaN and the
+// infinities are not geographic values: they cannot be indexed, make the area
+// builders loop, and cannot be printed as JSON numbers.
+func parseFiniteFloat(s string) (float64, error) {
+	f, err := strconv.ParseFloat(s, 64)
+	if err != nil {
+		return 0, err
+	}
+	if math.IsNaN(f) || math.IsInf(f, 0) {
+		return 0, errors.New("not a finite number")
+	}
+	return f, nil
+}
